@@ -14,8 +14,11 @@ type Browser struct {
 	From string // ip:port
 	XFF  string
 	Jar  map[string]string
-	n    int
-	Log  []string
+	// VaryPort: every request arrives on a new connection from a new ephemeral port (browsers
+	// close and reopen connections all the time); the address stays the same
+	VaryPort bool
+	n        int
+	Log      []string
 }
 
 func (w *World) NewBrowser(name, from string) *Browser {
@@ -46,7 +49,15 @@ func (b *Browser) Request(method, path string, extra [][2]string) *HTTPResult {
 		hdr = append(hdr, [2]string{"X-Forwarded-For", b.XFF})
 	}
 	hdr = append(hdr, extra...)
-	r := b.W.Do(&HTTPReq{Name: fmt.Sprintf("%s#%d", b.Name, b.n), From: b.From, Method: method, Path: path, Header: hdr})
+	from := b.From
+	if b.VaryPort {
+		if i := strings.LastIndexByte(from, ':'); i > 0 {
+			var port int
+			fmt.Sscanf(from[i+1:], "%d", &port)
+			from = fmt.Sprintf("%s:%d", from[:i], 20000+(port+7*b.n)%40000)
+		}
+	}
+	r := b.W.Do(&HTTPReq{Name: fmt.Sprintf("%s#%d", b.Name, b.n), From: from, Method: method, Path: path, Header: hdr})
 	if r.Header != nil {
 		for _, sc := range r.Header.Values("Set-Cookie") {
 			kv := strings.SplitN(strings.SplitN(sc, ";", 2)[0], "=", 2)
